@@ -718,15 +718,22 @@ func (m *mach) binop(in *ssa.BinOp, a, b mv) mv {
 		}
 	case float64:
 		if y, ok := b.(float64); ok {
+			// float32 arithmetic: the float64 result rounded once more is the float32 result (53 >= 2*24+2 bits)
+			r32 := func(r float64) float64 {
+				if bt, ok := in.Type().Underlying().(*types.Basic); ok && bt.Kind() == types.Float32 {
+					return float64(float32(r))
+				}
+				return r
+			}
 			switch op {
 			case token.ADD:
-				return x + y
+				return r32(x + y)
 			case token.SUB:
-				return x - y
+				return r32(x - y)
 			case token.MUL:
-				return x * y
+				return r32(x * y)
 			case token.QUO:
-				return x / y
+				return r32(x / y)
 			case token.LSS:
 				return x < y
 			case token.LEQ:
@@ -1965,7 +1972,13 @@ func (m *mach) convert(t *ssa.Convert, x mv) mv {
 			switch v := x.(type) {
 			case int64:
 				if sb, ok := src.(*types.Basic); ok && sb.Info()&types.IsUnsigned != 0 {
+					if d.Kind() == types.Float32 {
+						return float64(float32(uint64(v)))
+					}
 					return float64(uint64(v))
+				}
+				if d.Kind() == types.Float32 {
+					return float64(float32(v)) // a float32 keeps 24 bits of the integer
 				}
 				return float64(v)
 			case float64:
@@ -2246,6 +2259,17 @@ func (m *mach) recentPath() string {
 // numbering objects in order of first visit) as a hash: two fingerprints of one object taken before and
 // after a call differ exactly if the call changed some reachable, visible memory cell (slice elements
 // beyond the length are not visible).
+var typeStrings sync.Map // types.Type -> its String() (printing a type is slow, fingerprints do it per interface value)
+
+func typeStringCached(t types.Type) string {
+	if s, ok := typeStrings.Load(t); ok {
+		return s.(string)
+	}
+	s := t.String()
+	typeStrings.Store(t, s)
+	return s
+}
+
 func mFingerprint(v mv) string {
 	h := fnv.New128a()
 	seen := map[*mv]int{}
@@ -2270,7 +2294,7 @@ func mFingerprint(v mv) string {
 			w("sym" + t.name)
 		case mIface:
 			if t.t != nil {
-				w("i" + t.t.String())
+				w("i" + typeStringCached(t.t))
 			}
 			walk(t.v, depth+1)
 		case mTuple:
